@@ -3190,7 +3190,8 @@ tsk_edge_table_equals(
                      self->metadata_schema_length * sizeof(char))
                      == 0;
         metadata_equal = false;
-        if (self->metadata_length == other->metadata_length) {
+        /* Only compare the offsets when the tables have the same number of rows */
+        if (ret && self->metadata_length == other->metadata_length) {
             if (tsk_edge_table_has_metadata(self)
                 && tsk_edge_table_has_metadata(other)) {
                 metadata_equal
